@@ -208,7 +208,47 @@ def _install(fail_at: str | None):
     return undo_all
 
 
-def _gen(spec_path: Path, root: Path, out_pkg: str, core_pkg: str | None, force: bool, post: bool) -> str:
+def _gen_cli(spec_path: Path, root: Path, out_pkg: str, core_pkg: str | None, force: bool, post: bool) -> str:
+    """the same call through the command line entry point (typer app), so that its defaults and argument mapping
+    are exercised: no --force / --no-postprocess / --core-package unless asked for"""
+    import logging
+    from typer.testing import CliRunner
+    from pyopenapi_gen.cli import app
+    args = [str(spec_path), "--project-root", str(root), "--output-package", out_pkg]
+    if force:
+        args.append("--force")
+    if not post:
+        args.append("--no-postprocess")
+    if core_pkg is not None:
+        args += ["--core-package", core_pkg]
+    logging.disable(logging.CRITICAL)
+    try:
+        res = CliRunner().invoke(app, args, catch_exceptions=True)
+    finally:
+        logging.disable(logging.NOTSET)
+    text = res.output or ""
+    try:
+        text += res.stderr or ""
+    except Exception:
+        pass
+    e = res.exception
+    if isinstance(e, Injected):
+        return f"fail:{str(e).rsplit(' ', 1)[-1]}"
+    if e is not None and "injected I/O failure" in str(e):
+        return "fail:IO"
+    if isinstance(e, ValueError) and str(e).startswith("Invalid package name"):
+        return "invalid"
+    if res.exit_code == 0 and e is None:
+        return "ok"
+    if res.exit_code == 1 and "Differences found" in text:
+        return "diff"
+    return f"error:{type(e).__name__}: {str(e)[:200]} exit={res.exit_code}"
+
+
+def _gen(spec_path: Path, root: Path, out_pkg: str, core_pkg: str | None, force: bool, post: bool,
+         via_cli: bool = False) -> str:
+    if via_cli:
+        return _gen_cli(spec_path, root, out_pkg, core_pkg, force, post)
     import contextlib
     import io
     import logging
@@ -301,6 +341,67 @@ def reference_tree(out: str, core: str | None, spec: int) -> dict[str, str]:
     return _REF[key]
 
 
+def run_killed_child(case: dict, box: Path, spec_path: Path, root: Path, n: int) -> str:
+    """generation in a child process that dies (os._exit, no finally / atexit / TemporaryDirectory clean-up) at its
+    n-th file-system mutation below the sandbox; the child's temp dir is box/tmp, so leftovers stay in the sandbox"""
+    (box / "tmp").mkdir(exist_ok=True)
+    env = dict(os.environ)
+    env["TMPDIR"] = str(box / "tmp")
+    arg = {"spec": str(spec_path), "root": str(root), "out": case["out"], "core": case["core"], "force": case["force"],
+           "post": case["post"], "n": n, "box": str(box), "cwd": os.getcwd()}
+    p = subprocess.run([sys.executable, str(Path(__file__).resolve()), "--kill-child"], input=json.dumps(arg), env=env,
+                       capture_output=True, text=True, timeout=600, cwd=os.getcwd())
+    if p.returncode == 137:
+        return "killed"
+    for line in reversed(p.stdout.splitlines()):
+        if line.startswith("@@OUT "):
+            return line[6:]
+    return f"error:child rc={p.returncode}: {(p.stdout + p.stderr)[-300:]}"
+
+
+def kill_child() -> None:
+    arg = json.loads(sys.stdin.read())
+    box = arg["box"]
+    state = {"n": 0}
+
+    def hook(event: str, args: tuple) -> None:
+        p = None
+        if event == "open":
+            path, mode, flags = args
+            if isinstance(path, (str, bytes, os.PathLike)) and (
+                    (isinstance(mode, str) and any(ch in mode for ch in "wax+")) or
+                    (mode is None and isinstance(flags, int) and flags & (os.O_WRONLY | os.O_RDWR | os.O_CREAT))):
+                p = os.fsdecode(os.fspath(path))
+        elif event in ("os.mkdir", "os.remove", "os.rmdir", "os.rename", "shutil.rmtree"):
+            p = os.fsdecode(os.fspath(args[0]))
+        if p is not None and os.path.realpath(p).startswith(box + os.sep):
+            state["n"] += 1
+            if state["n"] == arg["n"]:
+                os._exit(137)
+
+    sys.addaudithook(hook)
+    os.chdir(arg["cwd"])
+    out = _gen(Path(arg["spec"]), Path(arg["root"]), arg["out"], arg["core"], arg["force"], arg["post"])
+    sys.stdout.write("\n@@OUT " + out + "\n")
+    sys.stdout.flush()
+
+
+def check_env_facts(root: Path) -> list[str]:
+    """the primitive facts the model's environment assumptions (wf_tmp, wf_log) are derived from (Proofs/GenFS.v
+    env_wf), checked on the machine that runs the case"""
+    bad = []
+    td = os.path.realpath(tempfile.gettempdir())
+    rs = os.path.realpath(str(root))
+    if td == rs or td.startswith(rs + os.sep):
+        bad.append("tempfile.gettempdir() is the project root or inside it")
+    if not os.path.isdir(rs):
+        bad.append("project root is not an existing directory")
+    for name in ("pyopenapi_gen_error.log", "pyopenapi_gen_mocks_error.log"):
+        if os.path.isdir(os.path.join(td, name)):
+            bad.append(f"{name} is a directory")
+    return bad
+
+
 def run_case(case: dict) -> dict:
     import pipeline
     pipeline.SCRATCH.mkdir(parents=True, exist_ok=True)
@@ -315,6 +416,9 @@ def run_case(case: dict) -> dict:
         prepare_existing(root, case, spec_path, other)
         (box / "cwd").mkdir()
         os.chdir(root if case.get("cwd_root") else box / "cwd")
+        env_bad = check_env_facts(root)
+        if env_bad:
+            raise RuntimeError("environment assumption violated on this machine: " + "; ".join(env_bad))
         before = snapshot(root)
         ref = reference_tree(case["out"], case["core"], case["spec"])
         toks = {}
@@ -331,7 +435,13 @@ def run_case(case: dict) -> dict:
         _REC["zones"] = (str(box), os.path.realpath(tempfile.gettempdir()))
         _REC["on"] = True
         try:
-            outcome = _gen(spec_path, root, case["out"], case["core"], case["force"], case["post"])
+            if isinstance(fa, str) and fa.startswith("KILL:"):
+                _REC["on"] = False
+                outcome = run_killed_child(case, box, spec_path, root, int(fa[5:]))
+            else:
+                cli_core = None if case.get("cli_core_omitted") else case["core"]
+                outcome = _gen(spec_path, root, case["out"], cli_core if case.get("via_cli") else case["core"],
+                               case["force"], case["post"], via_cli=bool(case.get("via_cli")))
         finally:
             _REC["on"] = False
             undo()
@@ -601,6 +711,20 @@ def gen_cases(rng, thorough: bool) -> list[dict]:
             if thorough and rng.random() < 0.6:
                 continue
             cases.append(mk(out, core, force, ex, "IO:" + n, spec=rng.randint(0, 1)))
+    # the process is killed at its n-th file-system mutation (no clean-up at all): judged by the oracle only
+    for _ in range(90 if thorough else 24):
+        out, core = rng.choice(LAYOUTS)
+        cases.append(mk(out, core, rng.random() < 0.35, rng.choice(EXISTING), f"KILL:{rng.randint(1, 110)}",
+                        spec=rng.randint(0, 1)))
+    # through the command line entry point (typer defaults: no --force, post-processing on, core = <out>.core)
+    for _ in range(40 if thorough else 10):
+        out, core = rng.choice(LAYOUTS)
+        c = mk(out, core if core is not None else out + ".core", rng.random() < 0.4,
+               rng.choice(["none", "different", "empty"]), rng.choice([None, None, "Models", "Diff"]),
+               spec=rng.randint(0, 1), post=rng.random() < 0.6, cwd_root=rng.random() < 0.4)
+        c["via_cli"] = True
+        c["cli_core_omitted"] = core is None
+        cases.append(c)
     # post-processing (real ruff): only existing trees whose diff decision does not depend on ruff's output
     for _ in range(60 if thorough else 14):
         out, core = rng.choice(LAYOUTS)
@@ -647,9 +771,12 @@ def main(chk, replay: dict | None = None) -> int:
         chk.sample({"input": c["input"], "outcome": c["obs"]["outcome"], "created": len(c["obs"]["created"]),
                     "deleted": len(c["obs"]["deleted"]), "modified": len(c["obs"]["modified"]),
                     "events": len(c["obs"]["events"])})
-    midway = [c for c in cases if str(c["input"]["fail_at"]).startswith("Write#")]
+    midway = [c for c in cases if str(c["input"]["fail_at"]).startswith(("Write#", "KILL:"))]
     inner = [c for c in cases if str(c["input"]["fail_at"]).startswith("IO:")]
-    cases = [c for c in cases if not str(c["input"]["fail_at"]).startswith(("Write#", "IO:"))]
+    cases = [c for c in cases if not str(c["input"]["fail_at"]).startswith(("Write#", "IO:", "KILL:"))]
+    dist["killed_runs"] = sum(1 for c in midway if c["obs"]["outcome"] == "killed")
+    dist["via_cli"] = sum(1 for c in cases if c["input"].get("via_cli"))
+    dist["env_facts_checked"] = len(cases) + len(midway) + len(inner)
     dist["midstage_failures_oracle_only"] = len(midway)
     dist["inner_io_failures"] = len(inner)
     dist["inner_io_hit_stage"] = {}
@@ -686,6 +813,8 @@ def main(chk, replay: dict | None = None) -> int:
 if __name__ == "__main__":
     if "--worker" in sys.argv:
         worker()
+    elif "--kill-child" in sys.argv:
+        kill_child()
     elif "--probe" in sys.argv:
         cs = json.loads(sys.stdin.read())
         for r in run_parallel(cs, 4):
